@@ -1,5 +1,7 @@
 SPECIFICATION Spec
 CONSTANT ND = 2
+CONSTANT FireOuts = {"ok", "berr"}
+CONSTANT RaiseKinds = {"berr", "cancelled"}
 CONSTANT NG = 2
 CONSTANT MaxLevel = 26
 CONSTRAINT Bound
